@@ -53,10 +53,10 @@ theorem NoResidue.of_sub {X : Prod → Prop} {e' e : Env} (h : NoResidue X e) (h
 /-! ### one non-dependency action, unsetup direction -/
 
 theorem acts_cons_nondep (rec : Rec) (cfg : Cfg) (fwd : Bool) (depth : Nat) (noRec : Bool) (vro : List VroEnt)
-    (d : Decl) (a : Act) (rest : List Act) (s : St) (ha : ∀ n o j v x t, a ≠ .dep n o j v x t) :
+    (d : Decl) (a : Act) (rest : List Act) (s : St) (ha : ∀ n o j v x t kl, a ≠ .dep n o j v x t kl) :
     acts rec cfg fwd depth noRec vro d (a :: rest) s = acts rec cfg fwd depth noRec vro d rest (a.apply fwd d.prod s) := by
   cases a with
-  | dep n o j v x t => exact absurd rfl (ha n o j v x t)
+  | dep n o j v x t kl => exact absurd rfl (ha n o j v x t kl)
   | prepend _ _ _ => simp only [acts]
   | set _ _ => simp only [acts]
   | alias _ _ => simp only [acts]
@@ -85,7 +85,7 @@ theorem apply_false_spec (p : Prod) (a : Act) (s : St) :
     refine ⟨Sub.refl _, fun _ => rfl, ?_, ?_⟩
     · intro _ _ _ he; cases he
     · intro _ _ he; cases he
-  | dep n o j v x t =>
+  | dep n o j v x t kl =>
     refine ⟨Sub.refl _, fun _ => rfl, ?_, ?_⟩
     · intro _ _ _ he; cases he
     · intro _ _ he; cases he
@@ -109,14 +109,14 @@ theorem acts_false_spec (cfg : Cfg) (rec : Rec) (hrec : UnSpec cfg rec) (X : Pro
     exact ⟨hn, Sub.refl _, by simp, by simp⟩
   | cons a rest ih =>
     intro s s' hw hn h
-    by_cases hdep : ∃ n o j v x t, a = .dep n o j v x t
-    · obtain ⟨n, o, j, v, x, t, rfl⟩ := hdep
+    by_cases hdep : ∃ n o j v x t kl, a = .dep n o j v x t kl
+    · obtain ⟨n, o, j, v, x, t, kl, rfl⟩ := hdep
       have tail : ∀ s1 : St, WellOwned cfg s1.env → NoResidue X s1.env → Sub s1.env s.env →
           acts rec cfg false depth noRec vro d rest s1 = .ok s' →
           NoResidue X s'.env ∧ Sub s'.env s.env ∧
-          (∀ var vals app, Act.prepend var vals app ∈ Act.dep n o j v x t :: rest →
+          (∀ var vals app, Act.prepend var vals app ∈ Act.dep n o j v x t kl :: rest →
             ∀ val ∈ vals, val.elem d.prod ∉ s'.env.pathOf var) ∧
-          (∀ var val, Act.set var val ∈ Act.dep n o j v x t :: rest → aget s'.env.vars var = none) := by
+          (∀ var val, Act.set var val ∈ Act.dep n o j v x t kl :: rest → aget s'.env.vars var = none) := by
         intro s1 hw1 hn1 hs1 h1
         obtain ⟨hn2, hs2, hp2, hv2⟩ := ih s1 s' hw1 hn1 h1
         exact ⟨hn2, hs2.trans hs1, fun var vals app hm => hp2 var vals app (by simpa using hm),
@@ -135,7 +135,7 @@ theorem acts_false_spec (cfg : Cfg) (rec : Rec) (hrec : UnSpec cfg rec) (X : Pro
         · rename_i s1 hr
           simp only [Bool.false_and, Bool.false_eq_true, if_false] at h
           exact tail ⟨s.env, s.aliases, s.unaliased, s1.already⟩ hw hn (Sub.refl _) h
-    · have ha : ∀ n o j v x t, a ≠ .dep n o j v x t := fun n o j v x t e => hdep ⟨n, o, j, v, x, t, e⟩
+    · have ha : ∀ n o j v x t kl, a ≠ .dep n o j v x t kl := fun n o j v x t kl e => hdep ⟨n, o, j, v, x, t, kl, e⟩
       rw [acts_cons_nondep rec cfg false depth noRec vro d a rest s ha] at h
       obtain ⟨hs1, hr1, hp1, hv1⟩ := apply_false_spec d.prod a s
       obtain ⟨hn2, hs2, hp2, hv2⟩ := ih _ s' (hw.of_sub hs1) (hn.of_sub hs1 hr1) h
@@ -173,11 +173,11 @@ theorem setup_succ_false (cfg : Cfg) (fuel : Nat) (depth : Nat) (noRec : Bool) (
 theorem setup_succ_true (cfg : Cfg) (fuel : Nat) (depth : Nat) (noRec : Bool) (vro : List VroEnt) (name : Name)
     (version : Option VerReq) (vexpr : Option VExpr) (s : St) :
     setup cfg (fuel + 1) true depth noRec vro name version vexpr s =
-      match resolve cfg.db cfg.keep s.already name version vexpr depth vro.length vro with
+      match resolve cfg.db cfg.path cfg.keep s.already name version vexpr depth vro.length vro with
       | .none => .notFound s
       | .error => .raised s
       | .found d reason => install (setup cfg fuel) cfg depth noRec vro d reason (register cfg depth d reason s) := by
-  cases h : resolve cfg.db cfg.keep s.already name version vexpr depth vro.length vro <;> simp [setup, h]
+  cases h : resolve cfg.db cfg.path cfg.keep s.already name version vexpr depth vro.length vro <;> simp [setup, h]
 
 /-- C01 clause (c), unsetup direction, for every database, fuel, flag combination and in-flux set -/
 theorem setup_false_spec (cfg : Cfg) : ∀ fuel, UnSpec cfg (setup cfg fuel) := by
